@@ -523,5 +523,149 @@ theorem find_post [SafePred P] (root : Val) (hroot : SafeKeys P root) :
     obtain ⟨ihD, ihK, ihI⟩ := ih
     exact ⟨findD_step root hroot fuel ihD ihK ihI, starKeys_step root fuel ihD ihK, starIdx_step root fuel ihD ihI⟩
 
+/-! ### list roots: `n0list._find` -/
+
+def IHL (P : Str → Prop) (root : Val) (fuel : Nat) : Prop :=
+  ∀ sp toks par rl found, SafeRef P root par → (∀ t ∈ toks, P t) → P found →
+    Post P root (findL fuel root sp toks par rl found)
+
+def IHLoop (P : Str → Prop) (root : Val) (fuel : Nat) : Prop :=
+  ∀ sp par rl found tok rest i items acc fst, SafeRef P root par → (∀ t ∈ rest, P t) → P found →
+    (∀ f, fst = some f → Good P root f) →
+    Post P root (findL.loop sp par rl found tok rest fuel root i items acc fst)
+
+theorem dispatchD_post [SafePred P] (root : Val) (hroot : SafeKeys P root) (fuel : Nat) (elem : PRef) (ev : Val)
+    (toks : List Str) (rl : Bool) (found : Str) (helem : SafeRef P root elem) (htoks : ∀ t ∈ toks, P t)
+    (hfound : P found) : Post P root (dispatchD fuel root elem ev toks rl found) := by
+  unfold dispatchD
+  split
+  · exact (find_post root hroot fuel).1 _ _ _ _ _ _ helem htoks hfound
+  · exact Post_err rfl
+
+theorem findL_loop_step [SafePred P] (root : Val) (hroot : SafeKeys P root) (fuel : Nat)
+    (ihL : IHL P root fuel) (ihLoop : IHLoop P root fuel) : IHLoop P root (fuel + 1) := by
+  intro sp par rl found tok rest i items acc fst hpar hrest hfound hfst
+  cases items with
+  | nil =>
+    simp only [findL.loop]
+    cases fst with
+    | some f => exact ⟨rfl, Good_of_fst (hfst f rfl)⟩
+    | none => exact ⟨rfl, Good_mk_none hpar hfound⟩
+  | cons it its =>
+    simp only [findL.loop]
+    have heref : SafeRef P root (childRef root par (Seg.idx i)) := SafeRef_child hpar _
+    have hf' : P (found ++ bracket (natStr i)) := P_found_idx hfound (P_natStr i)
+    split
+    · rename_i e he
+      split at he
+      · rw [← he]; exact dispatchD_post root hroot fuel _ _ rest rl _ heref hrest hf'
+      · rw [← he]; exact ihL sp rest _ rl _ heref hrest hf'
+      · cases he; exact Post_err rfl
+    · rename_i root' r hr
+      have h1 : Post P root (Except.ok (root', r)) := by
+        split at hr
+        · rw [← hr]; exact dispatchD_post root hroot fuel _ _ rest rl _ heref hrest hf'
+        · rw [← hr]; exact ihL sp rest _ rl _ heref hrest hf'
+        · cases hr
+      obtain ⟨hroot', hg⟩ := h1
+      subst hroot'
+      split
+      · refine ihLoop _ _ _ _ _ _ _ _ _ _ hpar hrest hfound ?_
+        intro f hf
+        split at hf
+        · cases hf; exact hfst _ rfl
+        · cases hf; exact hg
+      · exact ihLoop _ _ _ _ _ _ _ _ _ _ hpar hrest hfound hfst
+
+theorem findL_step [SafePred P] (root : Val) (hroot : SafeKeys P root) (fuel : Nat)
+    (ihL : IHL P root fuel) (ihLoop : IHLoop P root fuel) : IHL P root (fuel + 1) := by
+  intro sp toks par rl found hpar htoks hfound
+  cases toks with
+  | nil =>
+    rw [findL]
+    split
+    · split
+      · exact ⟨rfl, Good_mk_none hpar hfound⟩
+      · exact Post_err rfl
+    · exact ihL _ _ _ _ _ (SafeRef_at hroot sp) (P_tokenize hfound) P_slash
+  | cons tok rest =>
+    rw [findL]
+    have htok : P tok := htoks tok (by simp)
+    have hrest : ∀ t ∈ rest, P t := fun t ht => htoks t (by simp [ht])
+    split
+    · exact Post_err rfl
+    · rename_i pv hpv
+      split
+      · rename_i e he; exact Post_err (splitNameIndex_err he)
+      · rename_i name idx hsplit
+        obtain ⟨hname, hidx⟩ := splitNameIndex_ok (P := P) htok hsplit
+        split
+        · exact ⟨rfl, Good_mk_none hpar hfound⟩
+        · split
+          · exact Post_err rfl
+          · exact Post_err rfl
+          · rename_i s _
+            simp only [PIdx] at hidx
+            split
+            · -- [*]
+              simp only
+              split
+              · rename_i e he; split at he <;> cases he; exact Post_err rfl
+              · exact ihLoop _ _ _ _ _ _ _ _ _ _ hpar hrest hfound (fun _ h => by cases h)
+            · split
+              · rename_i e he; rw [n0eval_err he]; exact Post_err rfl
+              · rename_i ev hev
+                clear hev
+                have hwrapL : ∀ v, valOf root (PRef.wrap par) = some v → isList v = true := by
+                  intro v hv
+                  simp only [valOf, hpv, Option.map_some, Option.some.injEq] at hv
+                  subst hv; rfl
+                have hL : ∀ c xs, pv = Val.list c xs → ∀ v, valOf root par = some v → isList v = true := by
+                  intro c xs hc v hv; rw [hpv, hc] at hv; cases hv; rfl
+                cases ev with
+                | str _ => cases pv <;> exact Post_err rfl
+                | int i =>
+                  have goodIdx : ∀ (par' : PRef) (v : Val) (nf : Option (List Str)), SafeRef P root par' →
+                      (∀ x, valOf root par' = some x → isList x = true) →
+                      Good P root { parent := par', nameIdx := some (bracket (intStr i)), value := v,
+                                    found := found, notFound := nf } := by
+                    intro par' v nf h1 h2
+                    refine { par := h1, found := hfound, ni := ?_, linked := ?_ }
+                    · intro ni hni; cases hni; exact P_bracket (P_intStr i)
+                    · intro ni _ cpv hcpv; right; exact h2 cpv hcpv
+                  have hfi : P (found ++ bracket (intStr i)) := P_found_idx hfound (P_intStr i)
+                  cases pv
+                  all_goals
+                    simp only
+                    split
+                    · first
+                      | exact ⟨rfl, goodIdx _ _ _ hpar (hL _ _ rfl)⟩
+                      | exact ⟨rfl, goodIdx _ _ _ (SafeRef_wrap hpar) hwrapL⟩
+                    · split
+                      · exact Post_err rfl
+                      · split
+                        · first
+                          | exact ⟨rfl, goodIdx _ _ _ hpar (hL _ _ rfl)⟩
+                          | exact ⟨rfl, goodIdx _ _ _ (SafeRef_wrap hpar) hwrapL⟩
+                        · split
+                          · first
+                            | exact dispatchD_post root hroot fuel _ _ rest rl _ (SafeRef_child hpar _) hrest hfi
+                            | exact dispatchD_post root hroot fuel _ _ rest rl _ (SafeRef_child (SafeRef_wrap hpar) _) hrest hfi
+                          · first
+                            | exact ihL sp rest _ rl _ (SafeRef_child hpar _) hrest hfi
+                            | exact ihL sp rest _ rl _ (SafeRef_child (SafeRef_wrap hpar) _) hrest hfi
+                          · exact Post_err rfl
+
+theorem findL_post [SafePred P] (root : Val) (hroot : SafeKeys P root) :
+    ∀ fuel, IHL P root fuel ∧ IHLoop P root fuel := by
+  intro fuel
+  induction fuel with
+  | zero =>
+    refine ⟨?_, ?_⟩
+    · intro sp toks par rl found _ _ _; rw [findL]; exact Post_err rfl
+    · intro sp par rl found tok rest i items acc fst _ _ _ _; rw [findL.loop]; exact Post_err rfl
+  | succ fuel ih =>
+    exact ⟨findL_step root hroot fuel ih.1 ih.2, findL_loop_step root hroot fuel ih.1 ih.2⟩
+
 end
 end N0.XPath
